@@ -83,7 +83,12 @@ Definition step_may_match (l : laststep) (k : nkey) : bool :=
   end.
 
 (* one alternative of a (union) match pattern *)
-Record alt := { a_pat : N; a_target : target; a_score : score }.
+(* a_score: the default priority class getTargetData reports (table order, quiet path);
+   a_rscore: the score XPath::getMatchScore returns at run time when this alternative is the one
+   that matches (stepPattern: the node test's score for a single step, also under non-positional
+   predicates; eMatchScoreOther for several steps or a positional predicate) — used by the
+   conflict-reporting path only *)
+Record alt := { a_pat : N; a_target : target; a_score : score; a_rscore : score }.
 
 (* xsl:template with a match attribute.  t_text identifies the pattern *string* (two templates
    have the same t_text iff their match attributes are the same string) *)
@@ -312,7 +317,7 @@ Section Select.
     match first_matching (t_alts (e_tmpl e)) n with
     | None => {| nq_best := nq_best st; nq_conf := nq_conf st; nq_prev := Some e |}
     | Some a =>
-        let pr := match t_prio (e_tmpl e) with Some p => p | None => score_value (a_score a) end in
+        let pr := match t_prio (e_tmpl e) with Some p => p | None => score_value (a_rscore a) end in
         match nq_best st with
         | None => {| nq_best := Some (e, pr); nq_conf := []; nq_prev := Some e |}
         | Some (b, pb) =>
@@ -504,6 +509,17 @@ Section Select.
     forallb (fun t => forallb (fun a => implb (pmatch (a_pat a) n) (covers (a_target a) (key_of n)))
                               (t_alts t))
             (all_templates s).
+
+  (* guard of quiet_eq_nonquiet: without a priority attribute, the run-time score of every
+     alternative is its default priority *)
+  Definition runtime_uniform_template (t : template) : bool :=
+    match t_prio t with
+    | Some _ => true
+    | None => forallb (fun a => score_value (a_rscore a) =? score_value (a_score a)) (t_alts t)
+    end.
+
+  Definition runtime_scores_agree (s : sheet) : bool :=
+    forallb runtime_uniform_template (all_templates s).
 
   (* guard of quiet_eq_nonquiet: templates of one stylesheet level with the same match string
      and the same priority attribute behave alike on the node (violated only when the same
